@@ -160,24 +160,128 @@ func newExec(i *interpreter, prefix []int64, opt Options, st *Stats) *Exec {
 	return e
 }
 
+// Session is an exploration of one harness that can be driven in batches (used by the
+// multi-process coordinator in cmd/symgo: a worker process holds one Session per harness).
+type Session struct {
+	p          *Program
+	opt        Options
+	res        *Result
+	st         *Stats
+	solver     *Solver
+	start      time.Time
+	process    func(prefix []int64, countStats bool) [][]int64
+	complete   bool
+	stopReason string
+}
+
+// RunBatch explores depth-first from the given open prefixes until they are exhausted or budget
+// paths have been run (budget <= 0: no limit); it returns the prefixes that are still open.
+func (s *Session) RunBatch(work [][]int64, budget int64, maxDur time.Duration) [][]int64 {
+	opt, st, res := s.opt, s.st, s.res
+	startPaths := st.Paths
+	began := time.Now()
+	for len(work) > 0 {
+		if budget > 0 && st.Paths-startPaths >= budget {
+			break
+		}
+		if maxDur > 0 && st.Paths > startPaths && time.Since(began) > maxDur {
+			break
+		}
+		if opt.MaxPaths > 0 && st.Paths >= opt.MaxPaths {
+			s.complete, s.stopReason = false, fmt.Sprintf("path budget %d exhausted", opt.MaxPaths)
+			break
+		}
+		if !opt.Deadline.IsZero() && time.Now().After(opt.Deadline) {
+			s.complete, s.stopReason = false, "time budget exhausted"
+			break
+		}
+		if len(res.Findings) >= opt.MaxFindings {
+			s.complete, s.stopReason = false, "stopped after findings"
+			break
+		}
+		pfx := work[len(work)-1]
+		work = work[:len(work)-1]
+		work = append(work, s.process(pfx, true)...)
+	}
+	return work
+}
+
+// Finish closes the session and returns the result; open is the number of prefixes left unexplored.
+func (s *Session) Finish(open int) *Result {
+	res, st, p := s.res, s.st, s.p
+	if s.solver != nil {
+		defer s.solver.Close()
+	}
+	if res.Status == "fault" && res.Stats == nil {
+		return res
+	}
+	if open > 0 && s.complete {
+		s.complete, s.stopReason = false, "open prefixes left"
+	}
+	res.Open = open
+	res.Complete = s.complete
+	for f, fi := range p.interp.fninfo {
+		if fi.calls > 0 && f.Pkg != nil {
+			st.Funcs[f.String()] += fi.calls
+			fi.calls = 0
+		}
+	}
+	res.SolverQ = s.solver.Queries
+	res.SolverS = s.solver.Wall.Seconds()
+	res.WallS = time.Since(s.start).Seconds()
+	if res.WallS > 0 {
+		res.InstrsPerSec = float64(st.Instrs) / res.WallS
+	}
+	switch {
+	case st.PathsFault > 0 || st.CrossDisagree > 0 || s.solver.Errors > 0:
+		res.Status = "fault"
+		res.Reason = "engine fault, solver error or solver disagreement"
+	case len(res.Findings) > 0 || len(res.Races) > 0:
+		res.Status = "violation"
+	case st.PathsBudget > 0 || st.Inconclusive > 0 || !s.complete:
+		res.Status = "inconclusive"
+		res.Reason = s.stopReason
+		if res.Reason == "" {
+			res.Reason = "budget exceeded or solver unknown on some path"
+		}
+	default:
+		res.Status = "ok"
+	}
+	return res
+}
+
 // Explore runs harness fn over all paths (or this process's shard of them).
 func (p *Program) Explore(pkg *ssa.Package, opt Options) *Result {
+	s := p.NewSession(pkg, opt)
+	if s.solver == nil {
+		return s.res
+	}
+	work := [][]int64{nil}
+	if opt.Of > 1 {
+		work = s.shardFrontier()
+	}
+	work = s.RunBatch(work, 0, 0)
+	return s.Finish(len(work))
+}
+
+// NewSession prepares the exploration of harness opt.Harness (solver, per-path runner).
+func (p *Program) NewSession(pkg *ssa.Package, opt Options) *Session {
 	start := time.Now()
 	res := &Result{Harness: opt.Harness}
+	sess := &Session{p: p, res: res, start: start, complete: true}
 	st := &Stats{Reach: map[string]int64{}, Funcs: map[string]int64{}}
 	res.Stats = st
 	fn := pkg.Func(opt.Harness)
 	if fn == nil {
 		res.Status, res.Reason = "fault", "no such harness function: "+opt.Harness
-		return res
+		return sess
 	}
 	solver, err := NewSolver(opt.SolverName, opt.TimeoutMs)
 	if err != nil {
 		res.Status, res.Reason = "fault", "cannot start solver: "+err.Error()
-		return res
+		return sess
 	}
 	solver.LogDir = opt.LogDir
-	defer solver.Close()
 	if opt.Limits.MaxInstr == 0 {
 		opt.Limits.MaxInstr = 2_000_000
 	}
@@ -287,11 +391,6 @@ func (p *Program) Explore(pkg *ssa.Package, opt Options) *Result {
 		return e, outcome
 	}
 
-	work := [][]int64{nil}
-	// sharding: expand breadth-first until there are enough open prefixes, then keep our share
-	sharded := opt.Of > 1
-	complete := true
-	stopReason := ""
 	process := func(prefix []int64, countStats bool) [][]int64 {
 		e, outcome := runPath(prefix)
 		for _, f := range e.finds {
@@ -308,85 +407,45 @@ func (p *Program) Explore(pkg *ssa.Package, opt Options) *Result {
 		}
 		return e.newWork
 	}
-	if sharded {
-		frontier := [][]int64{nil}
-		for len(frontier) > 0 && len(frontier) < opt.FrontierMult*opt.Of {
-			// expand the shallowest prefix
-			sort.SliceStable(frontier, func(i, j int) bool { return len(frontier[i]) < len(frontier[j]) })
-			pfx := frontier[0]
-			frontier = frontier[1:]
-			if opt.Shard == 0 {
-				frontier = append(frontier, process(pfx, true)...)
-			} else {
-				// other shards replay the expansion silently
-				saveSt := *st
-				saveFind, saveSamp := res.Findings, res.Samples
-				nw := process(pfx, false)
-				reach, funcs := st.Reach, st.Funcs
-				*st = saveSt
-				st.Reach, st.Funcs = reach, funcs
-				res.Findings, res.Samples = saveFind, saveSamp
-				frontier = append(frontier, nw...)
-			}
-		}
-		sort.SliceStable(frontier, func(i, j int) bool { return lessPrefix(frontier[i], frontier[j]) })
-		work = nil
-		for k, pfx := range frontier {
-			if k%opt.Of == opt.Shard {
-				work = append(work, pfx)
-			}
-		}
-		if opt.Shard != 0 {
-			st.Reach, st.Funcs = map[string]int64{}, map[string]int64{}
+	sess.opt, sess.st, sess.solver, sess.process = opt, st, solver, process
+	return sess
+}
+
+// shardFrontier: legacy static sharding (-shard/-of): expand breadth-first until there are enough
+// open prefixes, then keep this shard's share.
+func (s *Session) shardFrontier() [][]int64 {
+	opt, st, res, process := s.opt, s.st, s.res, s.process
+	frontier := [][]int64{nil}
+	for len(frontier) > 0 && len(frontier) < opt.FrontierMult*opt.Of {
+		// expand the shallowest prefix
+		sort.SliceStable(frontier, func(i, j int) bool { return len(frontier[i]) < len(frontier[j]) })
+		pfx := frontier[0]
+		frontier = frontier[1:]
+		if opt.Shard == 0 {
+			frontier = append(frontier, process(pfx, true)...)
+		} else {
+			// other shards replay the expansion silently
+			saveSt := *st
+			saveFind, saveSamp := res.Findings, res.Samples
+			nw := process(pfx, false)
+			reach, funcs := st.Reach, st.Funcs
+			*st = saveSt
+			st.Reach, st.Funcs = reach, funcs
+			res.Findings, res.Samples = saveFind, saveSamp
+			frontier = append(frontier, nw...)
 		}
 	}
-	for len(work) > 0 {
-		if opt.MaxPaths > 0 && st.Paths >= opt.MaxPaths {
-			complete, stopReason = false, fmt.Sprintf("path budget %d exhausted", opt.MaxPaths)
-			break
-		}
-		if !opt.Deadline.IsZero() && time.Now().After(opt.Deadline) {
-			complete, stopReason = false, "time budget exhausted"
-			break
-		}
-		if len(res.Findings) >= opt.MaxFindings {
-			complete, stopReason = false, "stopped after findings"
-			break
-		}
-		pfx := work[len(work)-1]
-		work = work[:len(work)-1]
-		work = append(work, process(pfx, true)...)
-	}
-	res.Open = len(work)
-	res.Complete = complete
-	for f, fi := range p.interp.fninfo {
-		if fi.calls > 0 && f.Pkg != nil {
-			st.Funcs[f.String()] += fi.calls
-			fi.calls = 0
+	sort.SliceStable(frontier, func(i, j int) bool { return lessPrefix(frontier[i], frontier[j]) })
+	var work [][]int64
+	for k, pfx := range frontier {
+		if k%opt.Of == opt.Shard {
+			work = append(work, pfx)
 		}
 	}
-	res.SolverQ = solver.Queries
-	res.SolverS = solver.Wall.Seconds()
-	res.WallS = time.Since(start).Seconds()
-	if res.WallS > 0 {
-		res.InstrsPerSec = float64(st.Instrs) / res.WallS
+	if opt.Shard != 0 {
+		st.Reach, st.Funcs = map[string]int64{}, map[string]int64{}
 	}
-	switch {
-	case st.PathsFault > 0 || st.CrossDisagree > 0 || solver.Errors > 0:
-		res.Status = "fault"
-		res.Reason = "engine fault, solver error or solver disagreement"
-	case len(res.Findings) > 0 || len(res.Races) > 0:
-		res.Status = "violation"
-	case st.PathsBudget > 0 || st.Inconclusive > 0 || !complete:
-		res.Status = "inconclusive"
-		res.Reason = stopReason
-		if res.Reason == "" {
-			res.Reason = "budget exceeded or solver unknown on some path"
-		}
-	default:
-		res.Status = "ok"
-	}
-	return res
+	return work
 }
 
 func lessPrefix(a, b []int64) bool {
@@ -443,4 +502,86 @@ func (p *Program) MainPackage(pattern string) *ssa.Package {
 		}
 	}
 	return nil
+}
+
+// FindingsCount reports the findings recorded so far in this session.
+func (s *Session) FindingsCount() int { return len(s.res.Findings) + len(s.res.Races) }
+
+// Failed reports that the session could not be set up (no such harness, solver did not start).
+func (s *Session) Failed() bool { return s.solver == nil }
+
+// MergeResults combines the results of worker processes that explored disjoint parts of one harness.
+func MergeResults(harness string, parts []*Result, open int, complete bool, reason string, maxFindings int, wall float64) *Result {
+	res := &Result{Harness: harness, Complete: complete, Open: open, WallS: wall}
+	st := &Stats{Reach: map[string]int64{}, Funcs: map[string]int64{}, Stubs: map[string]bool{}}
+	res.Stats = st
+	rank := map[string]int{"ok": 0, "": 0, "inconclusive": 1, "violation": 2, "fault": 3}
+	worst := "ok"
+	for _, r := range parts {
+		if r == nil {
+			continue
+		}
+		if rank[r.Status] > rank[worst] {
+			worst = r.Status
+			res.Reason = r.Reason
+		}
+		if s := r.Stats; s != nil {
+			st.Paths += s.Paths
+			st.PathsAssumeCut += s.PathsAssumeCut
+			st.PathsBudget += s.PathsBudget
+			st.PathsFault += s.PathsFault
+			st.Instrs += s.Instrs
+			st.Branches += s.Branches
+			st.UnaryDecided += s.UnaryDecided
+			st.SolverDecided += s.SolverDecided
+			st.Obligations += s.Obligations
+			st.Discharged += s.Discharged
+			st.Violated += s.Violated
+			st.Inconclusive += s.Inconclusive
+			st.CrossChecked += s.CrossChecked
+			st.CrossDisagree += s.CrossDisagree
+			st.Concretized += s.Concretized
+			st.Merged += s.Merged
+			st.Summarised += s.Summarised
+			for k, v := range s.Reach {
+				st.Reach[k] += v
+			}
+			for k, v := range s.Funcs {
+				st.Funcs[k] += v
+			}
+			for k := range s.Stubs {
+				st.Stubs[k] = true
+			}
+			for _, f := range s.Faults {
+				if len(st.Faults) < 20 {
+					st.Faults = append(st.Faults, f)
+				}
+			}
+		}
+		for _, f := range r.Findings {
+			if len(res.Findings) < maxFindings {
+				res.Findings = append(res.Findings, f)
+			}
+		}
+		for _, sm := range r.Samples {
+			if len(res.Samples) < 12 {
+				res.Samples = append(res.Samples, sm)
+			}
+		}
+		res.Races = append(res.Races, r.Races...)
+		res.SolverQ += r.SolverQ
+		res.SolverS += r.SolverS
+	}
+	if worst == "ok" && !complete {
+		worst = "inconclusive"
+		res.Reason = reason
+	}
+	if worst == "violation" && res.Reason == "" && !complete {
+		res.Reason = reason
+	}
+	res.Status = worst
+	if wall > 0 {
+		res.InstrsPerSec = float64(st.Instrs) / wall
+	}
+	return res
 }
